@@ -70,13 +70,16 @@ Definition envname_char (c : N) : bool :=
 Definition match_envname (x : str) : option (str * nat) :=
   let (sp, r) := span is_space x in
   match r with
-  | 123%N :: r1 =>
-      let (nm, r2) := span envname_char r1 in
-      match nm, r2 with
-      | _ :: _, 125%N :: _ => Some (nm, length sp + 1 + length nm + 1)
-      | _, _ => None
-      end
-  | _ => None
+  | c :: r1 =>
+      if N.eqb c 123 then
+        let (nm, r2) := span envname_char r1 in
+        match nm, r2 with
+        | _ :: _, d :: _ =>
+            if N.eqb d 125 then Some (nm, length sp + 1 + length nm + 1) else None
+        | _, _ => None
+        end
+      else None
+  | [] => None
   end.
 
 (** [impl_maybe_read_math_mode_delimiter] *)
